@@ -77,6 +77,62 @@ CHECKS = {
         design_ref="DESIGN.md 5 C11",
         technique="bounded-exhaustive stateless exploration under an owned MILP back end; recomputation oracle",
         note=LP_NOTE),
+    "C07": dict(
+        category="exploration",
+        text="Solver(argv+['-bf']).solve(); get_results() on every instance of the families x {-pc} "
+             "x {with, without -twopl}; every printed optimal_* figure and the Infeasible verdict "
+             "are compared with an independent enumeration.",
+        design_ref="DESIGN.md 5 C07",
+        technique="bounded-exhaustive input enumeration vs enumeration reference",
+        note="Trusted base: vf/ref.py. Bounded to the listed families."),
+    "C08": dict(
+        category="model_checking",
+        text="The generator's randomness is an owned environment: for each accepted argument vector "
+             "of the grid the real Generator(argv) is re-executed once per RNG answer sequence "
+             "(all permutations of each shuffle, all values of each randint, all ordered selections "
+             "/ 0-1 vectors of each choice), and every file written is parsed by an independent "
+             "parser and checked against the requested parameters.",
+        design_ref="DESIGN.md 5 C08",
+        technique="stateless exhaustive exploration of the implementation over all RNG answers (owned RNG environment)",
+        note="Trusted base: vf/rngenv.py (bound to numpy/random by primitive-level outcome-set equality and by real-seed runs whose files must be in the explored set), vf/genfile.py parser. Vectors above the per-vector schedule cap are skipped and reported."),
+    "C12": dict(
+        category="model_checking",
+        text="Same exploration as C08 restricted to two-sided vectors; oracle: each second-side "
+             "list contains exactly the agents that list it (or a project of the lecturer), once.",
+        design_ref="DESIGN.md 5 C12",
+        technique="stateless exhaustive exploration of the implementation over all RNG answers",
+        note="As C08."),
+    "C13": dict(
+        category="exploration",
+        text="All 2^n tie-indicator vectors for n up to the bound, first/second side, 2/3-agent "
+             "files: real writer -> real create_instance -> real Solver; writer text and reader ranks "
+             "compared with the run structure implied by the indicators.",
+        design_ref="DESIGN.md 5 C13",
+        technique="bounded-exhaustive input enumeration",
+        note="Fixed permutation as list content; bounded list length."),
+    "C15": dict(
+        category="exploration",
+        text="Legal generator argument vectors over a grid and every single-fault perturbation; "
+             "legal => accepted and files written; illegal => SystemExit(2) with no output directory.",
+        design_ref="DESIGN.md 5 C15",
+        technique="bounded-exhaustive configuration enumeration incl. all single-fault perturbations",
+        note="Only the bounds listed in the property statement are judged."),
+    "C16": dict(
+        category="exploration",
+        text="Exhaustive enumeration of position assignments (all for <=3 criteria over a domain "
+             "around 1..9, all 9! permutations, all single corruptions for 4..9 criteria), flag "
+             "permutations and extras vectors through Solver(argv) with a non-existent file, plus "
+             "real runs checking the order of the reported criteria.",
+        design_ref="DESIGN.md 5 C16",
+        technique="bounded-exhaustive configuration enumeration",
+        note="Refusal = SystemExit(2) before FileNotFoundError."),
+    "C17": dict(
+        category="exploration",
+        text="create_linear_distribution on n in 1..N x a dense finite grid of skews against an "
+             "exact rational reference; all laws of the statement checked.",
+        design_ref="DESIGN.md 5 C17",
+        technique="grid enumeration vs exact rational reference",
+        note="Finite grid, not the continuum."),
 }
 
 NOT_YET = "check not built yet in this round (planned, see DESIGN.md section 5)"
